@@ -23,6 +23,47 @@ LAXABLE = ["ge", "le", "const", "enum", "decimal_places", "multiple_of", "max_di
 TOLERANT = [{int, float}, {int, Decimal}, {float, Decimal}]
 
 
+def enc2(v):
+    """pyval.encode plus dicts ({"m": [[k, v], ...]} in insertion order) and dict views"""
+    if isinstance(v, dict) and type(v) is dict:
+        return {"m": [[enc2(k), enc2(x)] for k, x in v.items()]}
+    if type(v) is list:
+        return {"l": [enc2(x) for x in v]}
+    if type(v) is tuple:
+        return {"t": [enc2(x) for x in v]}
+    if type(v) in (set, frozenset):
+        items = sorted((enc2(x) for x in v), key=lambda x: json.dumps(x, sort_keys=True))
+        return {"S" if type(v) is set else "F": items}
+    if type(v) is type({}.values()):
+        return {"V": [enc2(x) for x in v]}
+    if type(v) is type({}.keys()):
+        return {"K": [enc2(x) for x in v]}
+    return encode(v)
+
+
+def dec2(j):
+    if isinstance(j, dict):
+        if "m" in j:
+            return {dec2(k): dec2(x) for k, x in j["m"]}
+        if "l" in j:
+            return [dec2(x) for x in j["l"]]
+        if "t" in j:
+            return tuple(dec2(x) for x in j["t"])
+        if "S" in j:
+            return {dec2(x) for x in j["S"]}
+        if "F" in j:
+            return frozenset(dec2(x) for x in j["F"])
+        if "V" in j:
+            return {i: dec2(x) for i, x in enumerate(j["V"])}.values()
+        if "K" in j:
+            return {dec2(x): None for x in j["K"]}.keys()
+    return decode(j)
+
+
+
+ORIGINS = dict(CLS_BY_NAME, dict=dict)
+
+
 # ------------------------------------------------------------------------------------------------
 # adapter (runs in worker processes against the real utype)
 # ------------------------------------------------------------------------------------------------
@@ -364,7 +405,7 @@ def _generic(g, ts):
 
 def build_decl(case, shadow=False):
     """-> (T, extra): the declared type; for Field declarations extra = the data class"""
-    origin = CLS_BY_NAME[case["origin"]]
+    origin = ORIGINS[case["origin"]]
     types = None if shadow else [_build_tdesc(t) for t in case["types"]]
     if shadow:
         RuleBase = ShadowRule
@@ -396,12 +437,23 @@ def build_decl(case, shadow=False):
             args.append(...)
         return base.annotate(origin if w.get("origin") else None, *args, constraints=cs), None
     if kind == "getitem":
+        item = w["item"]
         if shadow:
-            return type("W", (base,), {} if w["item"] == "origin" else {"__args__": _Marker("args", [w["item"]])}), None
-        if (w["item"] == "origin") != (not base.__origin__):
+            if item == "origin":
+                return type("W", (base,), {}), None
+            idx = item if isinstance(item, list) else [item]
+            attrs = {"__args__": _Marker("args", idx)}
+            if w.get("ellipsis"):
+                attrs["__ellipsis_args__"] = True
+            return type("W", (base,), attrs), None
+        if (item == "origin") != (not base.__origin__):
             # Base[x] means "origin x" only for a base without origin (one may have been inferred from its constraints)
             raise LookupError("getitem form does not apply")
-        return base[origin if w["item"] == "origin" else types[w["item"]]], None
+        if item == "origin":
+            return base[origin], None
+        idx = item if isinstance(item, list) else [item]
+        key = tuple(types[i] for i in idx) + ((...,) if w.get("ellipsis") else ())
+        return base[key if len(key) > 1 else key[0]], None
     if kind in ("field", "dfield"):
         ann = w["ann"]
         if shadow:
@@ -475,7 +527,10 @@ def mro_bodies(case):
                 if w.get("ellipsis"):
                     body.append(["__ellipsis_args__", {"v": True, "lax": False}])
             elif w.get("kind") == "getitem" and w["item"] != "origin":
-                body.append(["__args__", {"v": {"t": [{"o": w["item"]}]}, "lax": False}])
+                idx = w["item"] if isinstance(w["item"], list) else [w["item"]]
+                body.append(["__args__", {"v": {"t": [{"o": i} for i in idx]}, "lax": False}])
+                if w.get("ellipsis"):
+                    body.append(["__ellipsis_args__", {"v": True, "lax": False}])
             elif w.get("kind") in ("field", "dfield") and isinstance(w["ann"], dict):
                 body.append(["__args__", {"v": {"t": [{"o": i} for i in w["ann"]["args"]]}, "lax": False}])
                 if w["ann"]["g"] == "TupleE":
@@ -501,7 +556,7 @@ def item_accepts(t, x) -> bool:
 
 def decl_expected(case) -> bool:
     vis = visible(case)
-    v = decode(case["value"])
+    v = dec2(case["value"])
 
     def pad(x, cs):
         d = dict(cs).get("decimal_places")
@@ -516,7 +571,11 @@ def decl_expected(case) -> bool:
         if vv["args"] is not None:
             # documented order: the element type converts the items first, then the container's own constraints
             ts = vv["args"]
-            if isinstance(v, tuple) and not vv["ellipsis"]:
+            if isinstance(v, dict):
+                if len(ts) != 2:
+                    raise Undefined
+                per = [(ts[0], k_) for k_ in v] + [(ts[1], x) for x in v.values()]
+            elif isinstance(v, tuple) and not vv["ellipsis"]:
                 if len(v) != len(ts):
                     raise Undefined
                 per = list(zip(ts, v))
@@ -524,6 +583,8 @@ def decl_expected(case) -> bool:
                 per = [(ts[0], x) for x in v]
             ok = all([item_accepts(t, x) for t, x in per])
             items = [pad(x, [(k, decode(b)) for k, b in t["cs"]]) for t, x in per]
+            if isinstance(v, dict):
+                items = None          # (no padding bookkeeping for mappings: their element types here do not re-quantise)
         ok = accept_cs(vv["cs"], v) and ok
         if vv["contains"] is not None:
             t, mn, mx = vv["contains"]
@@ -554,7 +615,7 @@ def impl_decl(case):
         T, S = build_decl(case)
     except Exception as e:
         return {"decl": type(e).__name__}
-    v = decode(case["value"])
+    v = dec2(case["value"])
     out = {"decl": "ok"}
     try:
         out["validators"] = [[f.__name__, encode(list(b) if k == "enum" and isinstance(b, (tuple, set, frozenset)) else b)]
@@ -580,7 +641,60 @@ def impl_decl(case):
             inst = S(x=v)
             return inst["x"] if isinstance(inst, dict) else inst.x
         out["via_field"] = _outcome(via)
+    out["ctx"] = decl_contexts(T, v)
     return out
+
+
+def decl_contexts(T, v):
+    """the declared type as a member of a union / Optional / List, directly and as a data-class field annotation: for each
+    form, was `v` accepted *as a value of T* (parse succeeded and handed `v` back)?"""
+    import typing
+    import utype
+    from utype.parser.rule import LogicalType, Rule
+    if not isinstance(T, LogicalType):
+        return {}
+    # a second member that does not take a value of T's origin type: a string constant nothing here equals
+    U = Rule.annotate(str, constraints={"const": "\x00never\x00"})
+
+    def same(r):
+        try:
+            if isinstance(v, (list, tuple, set, frozenset, dict)) and type(r) is not type(v):
+                return False
+            return bool(r == v) or bool(r != r and v != v)
+        except Exception:
+            return False
+
+    def run(build, wrap=lambda x: x, unwrap=lambda r: r):
+        try:
+            X = build()
+        except Exception as e:
+            return {"decl": type(e).__name__}
+        from utype.utils.exceptions import ParseError
+        try:
+            r = unwrap(X(wrap(v)))
+        except ParseError:
+            return {"accepted": False}
+        except RecursionError:
+            return {"escape": "RecursionError"}
+        except Exception as e:
+            return {"escape": type(e).__name__}
+        return {"accepted": same(r), "returned_other": not same(r)}
+
+    def field(ann):
+        S = type("C", (utype.Schema,), {"__annotations__": {"x": ann}, "__module__": __name__})
+        return S
+    ctx = {
+        "T|None": run(lambda: T | None),
+        "None|T": run(lambda: LogicalType.any_of(None, T)),
+        "Optional[T]": run(lambda: Rule.parse_annotation(typing.Optional[T])),
+        "Union[T,U]": run(lambda: Rule.parse_annotation(typing.Union[T, U])),
+        "Union[U,T]": run(lambda: Rule.parse_annotation(typing.Union[U, T])),
+        "List[T]": run(lambda: Rule.parse_annotation(typing.List[T]), wrap=lambda x: [x], unwrap=lambda r: r[0] if isinstance(r, list) and len(r) == 1 else r),
+        "field:Optional[T]": run(lambda: field(typing.Optional[T]), wrap=lambda x: {"x": x}, unwrap=lambda r: r["x"]),
+        "field:Union[T,U]": run(lambda: field(typing.Union[T, U]), wrap=lambda x: {"x": x}, unwrap=lambda r: r["x"]),
+        "field:List[T]": run(lambda: field(typing.List[T]), wrap=lambda x: {"x": [x]}, unwrap=lambda r: r["x"][0] if len(r["x"]) == 1 else r["x"]),
+    }
+    return ctx
 
 
 # ------------------------------------------------------------------------------------------------
@@ -965,8 +1079,66 @@ def gen_decl_case(rng):
             wrap = {"kind": kind, "ann": {"g": g, "args": argidx}, "cs": ordinary}
         else:
             wrap = {"kind": kind, "ann": "origin", "cs": ordinary}
+    if wrap is None and seqlike and any(x[0] == "__args__" for c in classes for x in c["attrs"]) and rng.random() < 0.6:
+        # the same declaration with the element type given by PARAMETRISING the final (sub)class: T[item] / T[a, b] / T[item, ...]
+        argidx = [o["o"] for c in classes for x in c["attrs"] if x[0] == "__args__" for o in x[1]["v"]["t"]]
+        ell = any(x[0] == "__ellipsis_args__" for c in classes for x in c["attrs"])
+        for c in classes:
+            c["attrs"] = [x for x in c["attrs"] if x[0] not in ("__args__", "__ellipsis_args__")]
+        wrap = {"kind": "getitem", "item": argidx, "ellipsis": ell}
+        shape += "+param"
+        feats.append("param")
     return {"op": "decl", "origin": origin, "types": types, "classes": classes, "wrap": wrap, "shape": shape,
             "feats": sorted(set(feats)), "value": encode(value)}
+
+
+def gen_dict_decl_case(rng):
+    """a dict-like constrained type (length family on the mapping, optional hook), declared over 1-3 levels, parametrised
+    by Sub[key_type, value_type] (or with __args__ in a class body); values are dicts of exactly-typed keys and values"""
+    kt = rng.choice([t for t in ELEM_TYPES if t["origin"] == "str"])
+    vt = rng.choice([t for t in ELEM_TYPES if t["origin"] in ("int", "str")])
+    types = [_enc_tdesc(kt), _enc_tdesc(vt)]
+    cs = []
+    k = rng.random()
+    if k < 0.3:
+        cs.append(["length", _a(rng.randint(0, 3))])
+    else:
+        if rng.random() < 0.7:
+            cs.append(["max_length", _a(rng.randint(1, 3))])
+        if rng.random() < 0.5:
+            cs.append(["min_length", _a(rng.randint(1, 2))])
+    if rng.random() < 0.25:
+        cs.append(["post_validate", {"v": {"s": rng.choice(["nonempty", "short"])}, "lax": False}])
+    n = rng.choice([0, 1, 2, 2, 3, 4])
+    keys = gen_items(rng, kt, n, 1 if rng.random() < 0.2 else 0, 0)
+    vals = gen_items(rng, vt, len(keys), 0, 0) if rng.random() < 0.75 else gen_items(rng, vt, max(len(keys) - 1, 0), 1, 0)
+    value = dict(zip(keys, vals + [rng.choice(ELEM_POOL[vt["origin"]])] * len(keys)))
+    levels = rng.choice([1, 2, 2, 3])
+    parts = [[] for _ in range(levels)]
+    for c in cs:
+        parts[rng.randrange(levels)].append(c)
+    if levels >= 2 and cs and rng.random() < 0.4 and cs[0][0] in ("max_length", "min_length", "length"):
+        # the subclass overrides the base's bound
+        b0 = decode(cs[0][1]["v"])
+        parts[0] = [x for x in parts[0] if x[0] != cs[0][0]] + [[cs[0][0], _a(b0 + rng.choice([1, 2]))]]
+        parts[-1] = [x for x in parts[-1] if x[0] != cs[0][0]] + [cs[0]]
+        for mid in parts[1:-1]:
+            mid[:] = [x for x in mid if x[0] != cs[0][0]]
+    names = ["A", "B", "T"][:levels]
+    classes = [{"name": names[0], "bases": ["origin", "Rule"], "attrs": parts[0]}]
+    for i in range(1, levels):
+        classes.append({"name": names[i], "bases": [names[i - 1]], "attrs": parts[i]})
+    args_attr = ["__args__", {"v": {"t": [{"o": 0}, {"o": 1}]}, "lax": False}]
+    how = rng.choice(["param", "param", "param", "body", "annotate"])
+    wrap = None
+    if how == "param":
+        wrap = {"kind": "getitem", "item": [0, 1]}
+    elif how == "body":
+        classes[rng.randrange(levels)]["attrs"].append(args_attr)
+    else:
+        wrap = {"kind": "annotate", "origin": rng.random() < 0.5, "args": [0, 1], "ellipsis": False, "cs": []}
+    return {"op": "decl", "origin": "dict", "types": types, "classes": classes, "wrap": wrap, "shape": "dict+" + how,
+            "feats": sorted({"args2", "param"} if how == "param" else {"args2"}), "value": enc2(value)}
 
 
 def ELEM_TYPES_BY(enc_t):
@@ -1125,7 +1297,7 @@ class C02(Check):
         out = []
         for _ in range(n):
             if rng.random() < self.decl_share:
-                out.append(gen_decl_case(rng))
+                out.append(gen_dict_decl_case(rng) if rng.random() < 0.08 else gen_decl_case(rng))
                 continue
             k = rng.random()
             if self.lax_mode and k < 0.12:
@@ -1165,6 +1337,9 @@ class C02(Check):
                 return {"op": "skip"}
             line = {"op": "decl", "origin": case["origin"], "mro": mro, "types": case["types"], "value": case["value"],
                     "prims": line["prims"]}
+            if case["origin"] == "dict":
+                line["value"] = None
+                line["nomodel"] = True          # PyVal has no mappings: the model answers for the compiled validators only
         return line
 
     # -- correspondence -------------------------------------------------------------------------
@@ -1207,6 +1382,9 @@ class C02(Check):
                 return f"parse result differs: impl {p['ok']} model {mo['parse']['ok']}"
             if io.get("isinstance") != mo.get("isinstance"):
                 return f"isinstance differs: impl {io.get('isinstance')} model {mo.get('isinstance')}"
+            for name, c in sorted((io.get("ctx") or {}).items()):
+                if "accepted" in c and c["accepted"] != ("ok" in mo["parse"]):
+                    return f"as {name}: impl accepted={c['accepted']} model (a constrained member is always parsed) {mo['parse']}"
             return None
         if op == "rule":
             if io.get("decl") != "ok":
@@ -1256,13 +1434,13 @@ class C02(Check):
         if op == "decl":
             if io.get("decl") != "ok":
                 return None
-            v = decode(case["value"])
+            v = dec2(case["value"])
             p = io["parse"]
             if "escape" in p:
                 return None   # C04's business
             got = "ok" in p
             what = self._decl_text(case)
-            if not isinstance(v, CLS_BY_NAME[case["origin"]]):
+            if type(v) is not ORIGINS[case["origin"]]:
                 return None
             if io.get("isinstance") != got:
                 return f"isinstance({v!r}, T) = {io.get('isinstance')} but parse {'succeeds' if got else 'fails'}; T: {what}"
@@ -1277,6 +1455,14 @@ class C02(Check):
                         f"{'succeeded' if got else 'failed with ' + str(p.get('perr'))} (isinstance = {io.get('isinstance')})")
             if got and not io.get("result_equal"):
                 return f"{what} on {v!r}: accepted but result {decode(p['ok'])!r} != input"
+            # the declared type as a member of a union / Optional / List and as a field annotation of those forms: a value
+            # of exactly the origin type is accepted there as a value of T exactly when T itself accepts it
+            for name, c in sorted((io.get("ctx") or {}).items()):
+                if "accepted" not in c:
+                    continue
+                if c["accepted"] != got:
+                    return (f"{what} on {v!r}: T itself {'accepts' if got else 'rejects'} the value (isinstance = {io.get('isinstance')}) but as "
+                            f"{name} it is {'accepted' if c['accepted'] else 'not accepted'}")
             vf = io.get("via_field")
             if vf is not None and "escape" not in vf:
                 if ("ok" in vf) != got:
@@ -1387,7 +1573,7 @@ class C02(Check):
             for x in around(rng, b) + around(rng, v):
                 out.append(dict(case, value=encode(x)))
         elif case["op"] == "decl":
-            v = decode(case["value"])
+            v = dec2(case["value"])
             if isinstance(v, (list, tuple, set)):
                 items = list(v)
                 T = type(v)
